@@ -64,36 +64,36 @@ func AllIDs() []string {
 
 // Result is what one worker (or the merge of all workers) produced.
 type Result struct {
-	Evaluations   int64            `json:"evaluations"`
-	Outcomes      map[string]int64 `json:"outcomes"`
-	Counters      map[string]int64 `json:"counters"`
-	Samples       []any            `json:"samples"`
-	Violations    []Violation      `json:"violations"`
-	ViolationsN   int64            `json:"violations_n"`
-	Caps          []string         `json:"caps"`
-	DistinctFile  string           `json:"distinct_file,omitempty"`
-	DistinctN     int64            `json:"distinct_n"`
-	DistinctCap   bool             `json:"distinct_capped"`
-	UnitsDone     int              `json:"units_done"`
-	Notes         []string         `json:"notes"`
-	Extra         map[string]any   `json:"extra,omitempty"`
-	MaxOf         map[string]int64 `json:"max_of,omitempty"`
-	SetOf         map[string][]string `json:"set_of,omitempty"`
+	Evaluations  int64               `json:"evaluations"`
+	Outcomes     map[string]int64    `json:"outcomes"`
+	Counters     map[string]int64    `json:"counters"`
+	Samples      []any               `json:"samples"`
+	Violations   []Violation         `json:"violations"`
+	ViolationsN  int64               `json:"violations_n"`
+	Caps         []string            `json:"caps"`
+	DistinctFile string              `json:"distinct_file,omitempty"`
+	DistinctN    int64               `json:"distinct_n"`
+	DistinctCap  bool                `json:"distinct_capped"`
+	UnitsDone    int                 `json:"units_done"`
+	Notes        []string            `json:"notes"`
+	Extra        map[string]any      `json:"extra,omitempty"`
+	MaxOf        map[string]int64    `json:"max_of,omitempty"`
+	SetOf        map[string][]string `json:"set_of,omitempty"`
 }
 
 // Ctx is handed to a check while it runs a unit.
 type Ctx struct {
-	Tier     Tier
-	Check    *Check
-	Seed     int64
-	deadline time.Time
-	res      *Result
-	distinct map[uint64]struct{}
-	distCap  int
-	marker   *os.File
-	violLog  *os.File
-	sampleAt int64
-	sets     map[string]map[string]struct{}
+	Tier      Tier
+	Check     *Check
+	Seed      int64
+	deadline  time.Time
+	res       *Result
+	distinct  map[uint64]struct{}
+	distCap   int
+	marker    *os.File
+	violLog   *os.File
+	sampleAt  int64
+	sets      map[string]map[string]struct{}
 	Replaying bool
 }
 
@@ -102,7 +102,7 @@ const maxViolationsKept = 40
 func newCtx(ch *Check, tier Tier, deadline time.Time) *Ctx {
 	return &Ctx{
 		Tier: tier, Check: ch, deadline: deadline,
-		res: &Result{Outcomes: map[string]int64{}, Counters: map[string]int64{}, MaxOf: map[string]int64{}},
+		res:      &Result{Outcomes: map[string]int64{}, Counters: map[string]int64{}, MaxOf: map[string]int64{}},
 		distinct: map[uint64]struct{}{}, distCap: 3_000_000, sampleAt: 1,
 		sets: map[string]map[string]struct{}{},
 	}
@@ -112,7 +112,7 @@ func newCtx(ch *Check, tier Tier, deadline time.Time) *Ctx {
 func (c *Ctx) Eval(n int) { c.res.Evaluations += int64(n) }
 
 // Outcome adds one observation to the outcome histogram.
-func (c *Ctx) Outcome(name string) { c.res.Outcomes[name]++ }
+func (c *Ctx) Outcome(name string)           { c.res.Outcomes[name]++ }
 func (c *Ctx) OutcomeN(name string, n int64) { c.res.Outcomes[name] += n }
 
 // Count adds to a named counter (states, transitions, …).
@@ -149,7 +149,7 @@ func (c *Ctx) Nontrivial(h uint64) {
 }
 
 // NontrivialBytes is Nontrivial(Hash(b)).
-func (c *Ctx) NontrivialBytes(b []byte) { c.Nontrivial(Hash(b)) }
+func (c *Ctx) NontrivialBytes(b []byte)  { c.Nontrivial(Hash(b)) }
 func (c *Ctx) NontrivialString(s string) { c.Nontrivial(HashString(s)) }
 
 // Sample keeps a logarithmically thinning selection of cases written out in the evidence.
